@@ -436,6 +436,81 @@ func (c *Ctx) condKinds(cond ssa.Value, depth int) []string {
 			}
 		}
 	}
+	// classification computed as data: `result != none` / `result == safe`
+	// where result is what a function of the module returns; the kinds are
+	// those of the tests under which that function produces the value
+	if bo, ok := cond.(*ssa.BinOp); ok && (bo.Op == token.NEQ || bo.Op == token.EQL) && depth < 3 {
+		val, cst := bo.X, bo.Y
+		if _, isC := val.(*ssa.Const); isC {
+			val, cst = cst, val
+		}
+		if k, ok := intConst(cst); ok {
+			want := int64(-1) // any non-zero value
+			if bo.Op == token.EQL {
+				want = k
+			} else if k != 0 {
+				return out
+			}
+			out = append(out, c.resultKinds(val, want)...)
+		}
+	}
+	return out
+}
+
+// resultKinds: v is (a result of) a call of a module function; the
+// declassifier kinds under which that function produces the wanted constant
+// (want < 0: any non-zero constant). Empty when some such production is not
+// under a recognised test.
+func (c *Ctx) resultKinds(v ssa.Value, want int64) []string {
+	idx := 0
+	if ex, ok := v.(*ssa.Extract); ok {
+		idx, v = ex.Index, ex.Tuple
+	}
+	call, ok := v.(*ssa.Call)
+	if !ok {
+		return nil
+	}
+	f := call.Common().StaticCallee()
+	if f == nil || !c.P.InModule(f) || f.Blocks == nil || f.Recover != nil {
+		return nil
+	}
+	var out []string
+	okAll := true
+	var trace func(x ssa.Value, at *ssa.BasicBlock, depth int)
+	trace = func(x ssa.Value, at *ssa.BasicBlock, depth int) {
+		if depth > 4 {
+			okAll = false
+			return
+		}
+		switch y := x.(type) {
+		case *ssa.Const:
+			k, ok := intConst(y)
+			if !ok || k == 0 || (want >= 0 && k != want) {
+				return
+			}
+			ks := c.guardKinds(f, at)
+			if len(ks) == 0 {
+				okAll = false
+			}
+			out = append(out, ks...)
+		case *ssa.Phi:
+			for i, e := range y.Edges {
+				trace(e, y.Block().Preds[i], depth+1)
+			}
+		default:
+			okAll = false
+		}
+	}
+	n := 0
+	for _, b := range f.Blocks {
+		if ret, ok := b.Instrs[len(b.Instrs)-1].(*ssa.Return); ok && idx < len(ret.Results) {
+			n++
+			trace(ret.Results[idx], b, 0)
+		}
+	}
+	if !okAll || n == 0 {
+		return nil
+	}
 	return out
 }
 
@@ -584,6 +659,8 @@ func ruleC05e(c *Ctx) []*report.Result {
 		return []*report.Result{r}
 	}
 	lab := c.Labels()
+	depthCount := 0
+	var countRec func(fn *ssa.Function) map[string][]*ssa.BasicBlock
 	count := func(fn *ssa.Function) map[string][]*ssa.BasicBlock {
 		m := map[string][]*ssa.BasicBlock{}
 		for _, b := range fn.Blocks {
@@ -620,6 +697,17 @@ func ruleC05e(c *Ctx) []*report.Result {
 					case hm:
 						m["methods"] = append(m["methods"], b)
 					default:
+						// tests made by a classification function of the
+						// hand-written code called here (one level)
+						if g := x.Common().StaticCallee(); g != nil && depthCount == 0 && c.P.InModule(g) && g.Blocks != nil && handWritten(c, g) && g.Signature.Recv() == nil && pkgPathOf(g) == pkgRfmt {
+							depthCount++
+							for k, bs := range countRec(g) {
+								if len(bs) > 0 && (k == "registry" || k == "safevalue" || k == "safewrap" || k == "unsafewrap" || k == "rstring" || k == "rbytes") {
+									m[k] = append(m[k], b)
+								}
+							}
+							depthCount--
+						}
 						// a test moved into a boolean helper
 						for _, k := range c.condKinds(x, 0) {
 							switch {
@@ -639,6 +727,7 @@ func ruleC05e(c *Ctx) []*report.Result {
 		}
 		return m
 	}
+	countRec = count
 	ms := count(hs)
 	for _, k := range []string{"safewrap", "unsafewrap", "rstring", "rbytes"} {
 		r.Check(len(ms[k]) >= 1, "(*internal/rfmt.pp).handleSpecialValues / "+k, c.P.Pos(hs.Pos()), "the shared special-value helper no longer tests "+k)
@@ -957,7 +1046,10 @@ func ruleC06g(c *Ctx) []*report.Result {
 	}
 	tests, declass := 0, 0
 	for _, fn := range c.P.ModuleFunctions() {
-		if recvNamed(fn) != tPP || fn.Blocks == nil {
+		// printer methods, and the classification functions of the
+		// hand-written code (which report the decision as a result)
+		pure := recvNamed(fn) != tPP && fn.Signature.Recv() == nil && pkgPathOf(fn) == pkgRfmt && handWritten(c, fn) && fn.Parent() == nil
+		if (recvNamed(fn) != tPP && !pure) || fn.Blocks == nil {
 			continue
 		}
 		name := shortFn(fn.String())
@@ -1021,6 +1113,34 @@ func ruleC06g(c *Ctx) []*report.Result {
 						}
 					}
 				}
+			}
+			if inst == nil && pure && len(T.Preds) == 1 {
+				// a classification function: the decision leaves as data —
+				// the constant of that side on an edge into a returned value —
+				// and is installed by the caller (whose site C02.b holds to it)
+				wantK := int64(1)
+				if side == "unsafe" {
+					wantK = 2
+				}
+				produced := false
+				for _, rb := range fn.Blocks {
+					for _, ins := range rb.Instrs {
+						ph, ok := ins.(*ssa.Phi)
+						if !ok {
+							continue
+						}
+						for i, e := range ph.Edges {
+							if k, ok := intConst(e); ok && k == wantK {
+								pb := ph.Block().Preds[i]
+								if pb == T || T.Dominates(pb) {
+									produced = true
+								}
+							}
+						}
+					}
+				}
+				r.Check(produced, construct+" / classification reported", pos, "the "+what+" is recognised in a classification function but the "+side+" classification is not what that function reports on this branch")
+				continue
 			}
 			if inst == nil {
 				r.Fail(construct+" / override installed", pos, "the "+side+" wrapper is recognised but the "+side+" override is not installed on that branch: the content is classified as if it were not wrapped", nil, "")
